@@ -164,4 +164,31 @@ def iCondWorker (g : Nat → Nat) (cond : Rec → Bool) (worker : SeqWorker) (br
     (arr : List Batch) : StageRes :=
   sliceWorkerStage (seqToSliceCond g cond worker breakOnError) breakOnError arr
 
+/-! ## nil worker / nil condition branches of the adapters (`pkg/obiseq/worker.go`) -/
+
+/-- `SeqToSliceWorker(worker, breakOnError)`, `worker == nil` included: `return input, nil` -/
+def seqToSliceOpt (g : Nat → Nat) (worker : Option SeqWorker) (breakOnError : Bool) (input : List Rec) : SliceRes :=
+  match worker with
+  | none => .ok input
+  | some w => seqToSlice g w breakOnError input
+
+/-- `NilSeqWorker`: `BioSequenceSlice{seq}, nil` -/
+def nilSeqWorker : SeqWorker := fun s => some [s]
+
+/-- `SeqToSliceConditionalWorker(condition, worker, breakOnError)` with its nil branches: no condition =
+`SeqToSliceWorker(worker, …)`; condition but no worker = the selected records kept as they are -/
+def seqToSliceCondOpt (g : Nat → Nat) (cond : Option (Rec → Bool)) (worker : Option SeqWorker)
+    (breakOnError : Bool) (input : List Rec) : SliceRes :=
+  match cond with
+  | none => seqToSliceOpt g worker breakOnError input
+  | some c => seqToSliceCond g c (worker.getD nilSeqWorker) breakOnError input
+
+/-- `worker.ChainWorkers(next)` with its nil branches: `nil.ChainWorkers(next) = next`,
+`worker.ChainWorkers(nil) = worker` -/
+def chainWorkersOpt (g : Nat → Nat) (worker next : Option SeqWorker) : Option SeqWorker :=
+  match worker, next with
+  | none, n => n
+  | some w, none => some w
+  | some w, some n => some (chainWorkers g w n)
+
 end ObiVerif.Iter
